@@ -463,7 +463,7 @@ def builtin(ex, st, fr, name, a, x, work):
     if name == 'fnmatch':
         S.add('fnmatch(3) on concrete strings -> Python fnmatch.fnmatchcase (flags 0)')
         import fnmatch as _fn
-        def cstr(p):
+        def _fn_cstr(p):
             out = []
             for i in range(4096):
                 b = ex.load_val(st, Ptr(p.obj, p.off + i), I8)
@@ -471,7 +471,7 @@ def builtin(ex, st, fr, name, a, x, work):
                 if b == 0: break
                 out.append(b)
             return bytes(out).decode('latin1')
-        return 0 if _fn.fnmatchcase(cstr(a[1]), cstr(a[0])) else 1
+        return 0 if _fn.fnmatchcase(_fn_cstr(a[1]), _fn_cstr(a[0])) else 1
     # ---------------- std::regex on concrete patterns and concrete subject strings: Python's re (ECMAScript subset: classes, groups, quantifiers)
     if name.startswith('_ZNSt7__cxx1111basic_regexIcNS_12regex_traitsIcEEEC'):
         S.add('std::regex(const char*) -> pattern kept as text; std::regex_match/regex_search on concrete strings decided with the same pattern by Python re')
